@@ -173,8 +173,16 @@ pub fn feed_value(s: &str, ctx: &mut Ctx, all_types: bool) -> Result<bool, Failu
     let n = if all_types { tys.len() } else { 10 };
     for ty in tys.iter().take(n) {
         ctx.evals(1);
-        let r = catch(|| Value::parse_from_str(s, ty).map(|v| v.to_string()).map_err(|e| e.to_string()))
-            .map_err(|p| fail(&format!("Value::parse_from_str at {ty}"), s, &p))?;
+        // an accepted value is also printed and lowered to its Simplicity form (what compilation does with it)
+        let r = catch(|| {
+            Value::parse_from_str(s, ty)
+                .map(|v| {
+                    let _ = simfony::value::StructuralValue::from(&v);
+                    v.to_string()
+                })
+                .map_err(|e| e.to_string())
+        })
+        .map_err(|p| fail(&format!("Value::parse_from_str at {ty}"), s, &p))?;
         match r {
             Ok(_) => {
                 ctx.label("value:accepted");
